@@ -252,10 +252,17 @@ def u1_query_construction(run):
                       "parameter stored under a fixed key",
                       "parameter name is not a constant", fi.loc(s),
                       nontrivial=False)
-    hdr = [s for s in walk_no_nested(fi.node) if isinstance(s, ast.Assign) and
-           unparse(s.targets[0]) == "headers"]
-    run.check(len(hdr) == 1 and unparse(hdr[0].value) ==
-              "[('Location', str(login_url))]", "U1", fi.qual + "::Location",
+    hdr = []
+    for r in cfg.by_kind("return"):
+        d = r.ast.value
+        if isinstance(d, ast.Dict):
+            hdr += [(r, v) for k, v in zip(d.keys, d.values)
+                    if isinstance(k, ast.Constant) and k.value == "headers"]
+    lname = [unparse(g.ast.targets[0]) for g in cfg.by_kind("stmt")
+             if isinstance(g.ast, ast.Assign) and g.ast.value is c]
+    run.check(len(hdr) == 1 and len(lname) == 1 and cfg.same(
+        hdr[0][1], hdr[0][0].id, "[('Location', str(%s))]" % lname[0]),
+              "U1", fi.qual + "::Location",
               "Location header is the joined URL", "headers changed", fi.loc(),
               nontrivial=False)
     # artifact / uri / urlencoded POST
@@ -390,10 +397,13 @@ def p2_raw_deflate(run):
     m = run.model
     e = m.func("s_utils.deflate_and_base64_encode")
     d = m.func("s_utils.decode_base64_and_inflate")
-    er = [n for n in walk_no_nested(e.node) if isinstance(n, ast.Return)]
-    dr = [n for n in walk_no_nested(d.node) if isinstance(n, ast.Return)]
+    from ..dataflow import inline_expr
+    ecfg, dcfg = cfg_of(e, m), cfg_of(d, m)
+    er, dr = ecfg.by_kind("return"), dcfg.by_kind("return")
     run.require(len(er) == 1 and len(dr) == 1, "deflate helpers changed shape")
-    ev, dv = er[0].value, dr[0].value
+    # the returned expressions with intermediate names expanded
+    ev = inline_expr(ecfg.rd, er[0].ast.value, er[0].id)
+    dv = inline_expr(dcfg.rd, dr[0].ast.value, dr[0].id)
     strips = False
     outer_b64 = isinstance(ev, ast.Call) and \
         attr_chain(ev.func) == "base64.b64encode"
